@@ -365,6 +365,30 @@ func c10Check(r *obs.Run, a c10alpha, s []byte, k int, exhaustive bool) {
 				fail("index-map", "StringKmerIndex["+c10Text(a, wd, k)+"]", g, want)
 			}
 		}
+		// appending to one entry is the caller's right too: no other entry of the same answer may notice
+		for _, ps := range m {
+			if r.Rng.Intn(3) == 0 {
+				_ = append(ps, -6, -6)
+			}
+		}
+		for _, ps := range sm {
+			if r.Rng.Intn(3) == 0 {
+				_ = append(ps, -6, -6)
+			}
+		}
+		for wd, want := range refPos {
+			g := append([]int(nil), m[kmerindex.Kmer(wd)]...)
+			sort.Ints(g)
+			if !reflect.DeepEqual(g, want) {
+				fail("index-map", "KmerIndex["+c10Text(a, wd, k)+"] after the caller appended to other entries of the same answer", g, want)
+			}
+			g = append([]int(nil), sm[c10Text(a, wd, k)]...)
+			sort.Ints(g)
+			if !reflect.DeepEqual(g, want) {
+				fail("index-map", "StringKmerIndex["+c10Text(a, wd, k)+"] after the caller appended to other entries of the same answer", g, want)
+			}
+		}
+		r.Count("index_maps_appended_to", 1)
 		for _, ps := range m { // the maps are the caller's as well
 			if r.Rng.Intn(3) == 0 {
 				for j := range ps {
@@ -372,6 +396,14 @@ func c10Check(r *obs.Run, a c10alpha, s []byte, k int, exhaustive bool) {
 				}
 				ps = append(ps, -6, -6)
 				_ = ps
+				scribbled++
+			}
+		}
+		for _, ps := range sm {
+			if r.Rng.Intn(3) == 0 {
+				for j := range ps {
+					ps[j] = -5
+				}
 				scribbled++
 			}
 		}
